@@ -136,6 +136,88 @@ func H_C13_def(k int) {
 		return
 	}
 	structMatches("", rt, d)
+	unionMembership(rt, d)
+}
+
+// goTypeName: the generator's name for a boxed schema type ("upload.File" -> "UploadFile")
+func goTypeName(t string) string {
+	out := ""
+	up := true
+	for i := 0; i < len(t); i++ {
+		c := t[i]
+		if c == '.' || c == '_' {
+			up = true
+			continue
+		}
+		if up && c >= 'a' && c <= 'z' {
+			c -= 32
+		}
+		up = false
+		out += string(rune(c))
+	}
+	return out
+}
+
+var unionNames []string // boxed result types of the API schema that have several constructors
+
+func unions() []string {
+	if unionNames == nil {
+		cnt := map[string]int{}
+		for _, d := range refDefs {
+			if !d.Func && d.File != "mtproto.tl" {
+				cnt[d.Result]++
+			}
+		}
+		for _, d := range refDefs { // schema order, deterministic
+			if cnt[d.Result] > 1 {
+				unionNames = append(unionNames, d.Result)
+				cnt[d.Result] = 0
+			}
+		}
+	}
+	return unionNames
+}
+
+// unionMembership: a constructor whose schema line says "= R" is a member of the Go interface generated for R
+// (marker method ImplementsR) and of no other union - this is what makes a client method able to return it "as
+// the result kind the schema declares" (the methods type-assert the decoded answer to that interface).
+func unionMembership(rt reflect.Type, d *refDef) {
+	if d.Func || d.File == "mtproto.tl" {
+		return
+	}
+	// the generator's marker methods of this type, compared case-insensitively (its naming turns Url/Json/Id
+	// into URL/JSON/ID)
+	var markers []string
+	for i := 0; i < rt.NumMethod(); i++ {
+		n := rt.Method(i).Name
+		if len(n) > 10 && n[:10] == "Implements" {
+			markers = append(markers, lowerASCII(n[10:]))
+		}
+	}
+	want := lowerASCII(goTypeName(d.Result))
+	isUnion := false
+	for _, u := range unions() {
+		if u == d.Result {
+			isUnion = true
+		}
+	}
+	if isUnion {
+		verifrt.Assert(len(markers) >= 1, "constructor-is-member-of-its-result-type")
+	}
+	verifrt.Assert(len(markers) <= 1, "constructor-is-member-of-one-type-only")
+	for _, m := range markers {
+		verifrt.Assert(m == want, "constructor-is-member-of-the-type-its-schema-line-names")
+	}
+}
+
+func lowerASCII(s string) string {
+	b := []byte(s)
+	for i, c := range b {
+		if c >= 'A' && c <= 'Z' {
+			b[i] = c + 32
+		}
+	}
+	return string(b)
 }
 
 // H_C13_registry: nothing is registered that the schemas do not define; ids are unique per type.
